@@ -89,15 +89,26 @@ impl TryFrom<(FeelNumber, FeelNumber, FeelNumber)> for FeelDate {
   type Error = DmntkError;
   /// Converts a tuple of numbers into [FeelDate].
   fn try_from(value: (FeelNumber, FeelNumber, FeelNumber)) -> Result<Self, Self::Error> {
-    let year = value.0.into();
-    if value.1 > FeelNumber::zero() && value.2 > FeelNumber::zero() {
-      let month = value.1.into();
-      let day = value.2.into();
-      if is_valid_date(year, month, day) {
+    // every component must be a whole number in the range of its type, nothing is rounded or wrapped
+    let year = whole_number(&value.0).and_then(|year| i32::try_from(year).ok());
+    let month = whole_number(&value.1).and_then(|month| u8::try_from(month).ok());
+    let day = whole_number(&value.2).and_then(|day| u8::try_from(day).ok());
+    if let (Some(year), Some(month), Some(day)) = (year, month, day) {
+      if month > 0 && day > 0 && is_valid_date(year, month, day) {
         return Ok(Self(year, month, day));
       }
     }
     Err(invalid_date(value.0.into(), value.1.into(), value.2.into()))
+  }
+}
+
+/// Returns the value of a number that has no fractional part.
+fn whole_number(number: &FeelNumber) -> Option<isize> {
+  let truncated = number.trunc();
+  if truncated == *number {
+    truncated.to_isize()
+  } else {
+    None
   }
 }
 
